@@ -14,6 +14,9 @@ type Opts struct {
 	BigBodies bool // SGIP 32-bit length: allow bodies up to 64 KiB
 	BigTails  bool // optional values at the boundary sizes (up to 65531)
 	NoTails   bool
+	// MaxTriplets caps the number of optional parameters (0 = no cap). With at
+	// most one parameter the serialisation does not depend on map order.
+	MaxTriplets int
 }
 
 // UintW draws an unsigned integer of the given bit width over its full range
@@ -131,6 +134,9 @@ func DrawTriplets(t *rapid.T, o Opts, label string) []ref.Triplet {
 		n = 1
 	default:
 		n = rapid.IntRange(2, 8).Draw(t, label+"n")
+	}
+	if o.MaxTriplets > 0 && n > o.MaxTriplets {
+		n = o.MaxTriplets
 	}
 	if n == 0 {
 		if rapid.Bool().Draw(t, label+"nil") {
